@@ -126,11 +126,99 @@ func c07(c *Ctx) {
 		}
 	}
 	g.ForceList = 0
+	reusedReceiver(c, g)
 	wellFormedBodies(c, g)
 	signIDFinding(c, g)
 	paramsSweep(c, g)
 	helpers(c, g)
 	gbkSweep(c)
+}
+
+// reusedReceiver: the server keeps ONE handler object per message id and connection, so the byte direction of the
+// property must hold on a receiver that has parsed other bodies before: sequences of 2-3 encoded in-domain values
+// parsed by one receiver, Encode after each parse must give what a fresh receiver gives for that body (= the body).
+// Random sequences, and for the list types "long list, then empty list, then short list" (state left over from the
+// longer message is the typical defect).  Direct oracle only: the model has no receiver.
+func reusedReceiver(c *Ctx, g *Gen) {
+	n := 12
+	if !c.Quick() {
+		n = 300
+	}
+	fresh := func(t *BodyType, ver, dial int, b []byte) (string, bool) {
+		h := t.New(consts.ActiveSafetyType(dial))
+		if ParseInto(h, ver, Exact(b)) != "ok" {
+			return "", false
+		}
+		e, p := SafeEncode(h)
+		return Hx(e), !p
+	}
+	run := func(t *BodyType, dial int, seq []VerBody) {
+		h := t.New(consts.ActiveSafetyType(dial))
+		var parts []string
+		for i, vb := range seq {
+			parts = append(parts, vb.String())
+			want, ok := fresh(t, vb.Ver, dial, vb.Body)
+			if !ok {
+				return // a fresh receiver already fails: reported by the round-trip oracle
+			}
+			req := fmt.Sprintf("bseqrt %s %d %s", t.Name, dial, strings.Join(parts, " "))
+			c.Eval(req, i > 0)
+			got := "?"
+			if o := ParseInto(h, vb.Ver, Exact(vb.Body)); o != "ok" {
+				got = o
+			} else if e, p := SafeEncode(h); p {
+				got = "panic"
+			} else {
+				got = Hx(e)
+			}
+			if got != want {
+				viol(c, Violation{Signature: "C07/reencode-reused/" + t.Name, What: fmt.Sprintf("a receiver that parsed %d earlier bodies re-encodes the last one differently from a fresh receiver", i),
+					Input: req, Observed: got, Required: want})
+				return
+			}
+		}
+		c.Count("reused:" + t.Name)
+	}
+	value := func(t *BodyType, ver, dial int) ([]byte, bool) {
+		v, ok := g.Value(t, ver, consts.ActiveSafetyType(dial))
+		if !ok {
+			return nil, false
+		}
+		b, p := SafeEncode(v)
+		return b, !p
+	}
+	hasList := map[string]bool{"P0x8003": true, "P0x8800": true, "P0x9212": true, "T0x0805": true, "T0x1205": true, "T0x1210": true, "T0x0704": true, "P0x8103": true}
+	for _, t := range append(append([]*BodyType{}, BodyTypes...), LocBodyTypes...) {
+		if !t.TwoWay {
+			continue
+		}
+		for _, dial := range t.Dialects() {
+			for i := 0; i < n; i++ {
+				var seq []VerBody
+				for k := 0; k < 2+c.Rng.Intn(2); k++ {
+					ver := t.Versions()[c.Rng.Intn(len(t.Versions()))]
+					if b, ok := value(t, ver, dial); ok {
+						seq = append(seq, VerBody{Ver: ver, Body: b})
+					}
+				}
+				run(t, dial, seq)
+			}
+			if hasList[t.Name] {
+				for i := 0; i < 4; i++ {
+					var seq []VerBody
+					for _, k := range []int{3 + c.Rng.Intn(4), 0, 1 + c.Rng.Intn(2)} {
+						g.ForceList = k + 1
+						if b, ok := value(t, 2, dial); ok {
+							seq = append(seq, VerBody{Ver: 2, Body: b})
+						}
+					}
+					g.ForceList = 0
+					run(t, dial, seq)
+				}
+			}
+		}
+	}
+	g.ForceList = 0
 }
 
 // wellFormedBodies: the other half of the property, literally: bodies laid out here from the standard (independent of
